@@ -34,6 +34,22 @@ BOUNDS = {
     'thorough': 'quick + depth 2 after the 3-code alphabet with 2 forms, faults with all option settings',
 }
 
+BAD_PRIMS = {
+    'AnnAssign': [('simple', [1, 2, -1, 'x', None])],          # 1 is invalid unless the target is a bare name
+    'ImportFrom': [('level', [-1, 'x', 1.5]), ('module', ['1a', 'a b', 'a.', 'if'])],
+    'comprehension': [('is_async', [2, 'x', None])],
+    'Name': [('id', ['1x', 'a b', 'if', '', 'a.b'])],
+    'Attribute': [('attr', ['1x', 'a b', 'if', ''])],
+    'alias': [('name', ['1x', 'a b', 'a..b']), ('asname', ['1x', 'a b', 'if', 'a.b'])],
+    'FunctionDef': [('name', ['1x', 'a b', '', 'if'])],
+    'ClassDef': [('name', ['1x', 'a b', ''])],
+    'keyword': [('arg', ['1x', 'a b', 'if'])],
+    'arg': [('arg', ['1x', 'a b', 'if', ''])],
+    'ExceptHandler': [('name', ['1x', 'a b', 'if'])],
+    'MatchAs': [('name', ['1x', 'a b', 'if'])],
+    'MatchStar': [('name', ['1x', 'a b'])],
+    'Constant': [('kind', ['x', 1])],
+}
 IDENT_LISTS = [['x', 'None'], ['True', 'y'], ['x', 'a.b'], ['x', 'if'], ['x', ''], ['x', '(y)'], ['False'], ['x', '1'], ['x', 'y z'],
                ['__debug__', 'x', 'None', 'y']]
 BAD_CODE = ['a +', ')', 'if', 'x = 1', 'pass\n  y', '1 2', '', '*', 'é é', 'lambda', 'a, *', '(', 'yield = 1']
@@ -100,6 +116,11 @@ def enumerate_faults(src, tree=None, lite=False):
             if not lite:
                 yield {'op': 'fault', 'fault': 'arglike-order', 'path': p, 'field': vf, 'text': '**kw', 'idx': 0}
                 yield {'op': 'fault', 'fault': 'arglike-order', 'path': p, 'field': 'keywords', 'text': '*s', 'idx': 'end'}
+        for fld, vals in BAD_PRIMS.get(ncls, ()):  # primitive fields: values of the wrong kind / out of range / not valid for this node
+            if fld == 'simple' and isinstance(node.target, ast.Name):
+                vals = [v for v in vals if v != 1]
+            for v in (vals[:2] if lite else vals):
+                yield {'op': 'fault', 'fault': 'bad-primitive', 'path': p, 'field': fld, 'text': repr(v)}
         if ncls in ('Global', 'Nonlocal'):  # code given as a Python list of strings (identifiers for names, else source lines)
             for names in (IDENT_LISTS[:3] if lite else IDENT_LISTS):
                 for i in (0, 'end'):
@@ -182,6 +203,9 @@ def apply(fst, root, op):
         return None
     if k == 'arglike-order':
         return n.put_slice(op['text'], op['idx'], op['idx'], op['field'], norm=True)
+    if k == 'bad-primitive':
+        r = n.put(eval(op['text']), field=op['field'], norm=True)  # noqa: S307  (our own literals)
+        raise ValueError(f"put({op['text']}, {op['field']!r}) accepted")  # it has to refuse: count an acceptance as the fault
     if k == 'identifier-list':
         names = op['text'].split('|')
         if op['idx'] == 'end':
